@@ -535,3 +535,22 @@ def run_instances(tasks, sources=None, procs=None):
     for i, recs, ms in outs:
         records += recs
     return records, time.time() - t0
+
+
+def frame_records(names):
+    """E2: each function writes through no reference reachable from its arguments (`modifies` nothing)"""
+    from vt.frame import Index, frame_obligations
+
+    ix = Index()
+    out = []
+    for n in names:
+        rel, qual = FILES[n]
+        recs, S = frame_obligations(ix, rel, qual, modifies=(), label="%s modifies none of its arguments" % n)
+        for x in recs:
+            x["clean"] = False
+            if x["status"] != "discharged":
+                x["replay"] = [dict(clause="frame.args", function=n, input_class="frame/%s" % n, params=dict(fn=n, rdims=[2, 3], cdims=[3, 2], perm=[1, 0], sys=[0] if n != "swap" else [1, 2], dimform="2row-array")) ] if n in ("partial_transpose", "realignment", "permute_systems", "swap") else [dict(clause="frame.args", function=n, input_class="frame/%s" % n, params=dict(fn=n, rdims=[2, 3], cdims=[2, 3], sys=[0]))] if n == "partial_trace" else []
+        out += recs
+    for i, x in enumerate(out):
+        x["_id"] = "frame.%d" % i
+    return out
